@@ -83,29 +83,38 @@ fn fg_case(ctx: &mut Ctx, plan: &mut Plan, t: &Tab, kind: &str) {
     if !plan.seen.insert(t.clone()) {
         return;
     }
+    let ds: PartialDSym = t.to_partial_dsym();
     if !ctx.peek_mine() {
+        // the `fg` case belongs to another shard; the `inner` case may still be ours
         ctx.skip();
-        ctx.skip();
+        inner_case(ctx, t, &ds, kind);
         return;
     }
-    let ds: PartialDSym = t.to_partial_dsym();
     let preview = catch_unwind(AssertUnwindSafe(|| fundamental_group(&ds).nr_generators())).unwrap_or(0);
     let kmax = kmax_for(preview, t.size, plan.quick);
     let tclimit = if t.dim == 3 { if plan.quick { 2000 } else { 6000 } } else { 0 };
-    let sz = match t.size {
-        0..=7 => format!("size={}", t.size),
-        8..=16 => "size=8..16".to_string(),
-        17..=48 => "size=17..48".to_string(),
-        _ => "size=49+".to_string(),
-    };
+    let sz = size_bucket(t.size);
     let gb = match preview {
         0..=5 => format!("gens={}", preview),
         _ => "gens=6+".to_string(),
     };
     let tags = format!("nt {} dim={} {} {} idx<={}", kind, t.dim, sz, gb, kmax);
     ctx.case("fg", &tags, || format!("{} {} {}", kmax, tclimit, t.enc()), || enc_fg(&fundamental_group(&ds)));
-    ctx.case("inner", &format!("nt {} dim={} {}", kind, t.dim, sz), || t.enc(), || {
-        let e = inner_edges(&ds);
+    inner_case(ctx, t, &ds, kind);
+}
+
+fn size_bucket(size: usize) -> String {
+    match size {
+        0..=7 => format!("size={}", size),
+        8..=16 => "size=8..16".to_string(),
+        17..=48 => "size=17..48".to_string(),
+        _ => "size=49+".to_string(),
+    }
+}
+
+fn inner_case(ctx: &mut Ctx, t: &Tab, ds: &PartialDSym, kind: &str) {
+    ctx.case("inner", &format!("nt {} dim={} {}", kind, t.dim, size_bucket(t.size)), || t.enc(), || {
+        let e = inner_edges(ds);
         let mut s = e.len().to_string();
         for (d, i) in e {
             s.push_str(&format!(" {} {}", d, i));
@@ -157,7 +166,7 @@ fn main() {
     }
 
     // (1) every connected complete 2D symbol (all labellings) up to the size bound
-    let (nmax2, vmax2): (usize, usize) = if th { (6, 6) } else { (4, 3) };
+    let (nmax2, vmax2): (usize, usize) = if th { (7, 6) } else { (5, 3) };
     for n in 1..=nmax2 {
         let sets = dsets(2, n, true, true, false);
         for t in &sets {
